@@ -210,3 +210,102 @@ def transform_inertia_parallel(h):
     # `transform` is the pose of the new frame: components in its axes are R^T (.) R
     want = R.T.dot(sh).dot(R) if h.mode == "sym" else R.T @ sh @ R
     h.check("R^T.(I + m(|a|^2 E - a a^T)).R", h.eq(out, want))
+
+
+# ----------------------------------------------------------------------------- Trimesh level (modular: ghost self)
+
+from pyvc.engine import Ghost  # noqa: E402
+
+BASE = "trimesh.base.Trimesh"
+
+
+def _ghost_mesh(h, T, data):
+    cr = h.fn(TRI + ".cross")(T)
+    return Ghost(triangles=T, triangles_cross=cr, _data=Ghost(data=data))
+
+
+@contract("C03", BASE + ".mass_properties", name="delegates-with-overrides")
+def trimesh_mass_properties(h):
+    """Trimesh.mass_properties = triangles.mass_properties(triangles, cross(triangles),
+    density override, centre-of-mass override) - checked against the integral spec"""
+    N = h.length("N")
+    T = h.lreals("T", N, (3, 3))
+    rho = h.real("rho")
+    f = h.method(BASE + ".mass_properties")
+    I = [s.sum() for s in flux_spec(T)]
+    V = I[0]
+    tol = h.module("trimesh.constants").tol
+    # no overrides: density 1
+    mp = f(_ghost_mesh(h, T, {}))
+    h.check("default-density-1", h.all([h.eq(mp.density, 1.0), h.eq(mp.mass, V), h.eq(mp.volume, V)]))
+    # density override
+    mp = f(_ghost_mesh(h, T, {"density": rho}))
+    com = mp.center_mass
+    J = _J(I, V, com)
+    h.check("density-override", h.all([h.eq(mp.density, rho), h.eq(mp.mass, rho * V), h.eq(mp.volume, V)]))
+    h.check("center_mass=∫x/∫1", h.implies(h.not_(h.abs(V) < tol.zero), h.all([h.eq(com[d] * V, I[1 + d]) for d in range(3)])))
+    h.check("inertia=density*J", h.eq(mp.inertia, [[rho * J[r][c] for c in range(3)] for r in range(3)]))
+    # centre of mass override
+    c0 = h.reals("c", 3)
+    mp = f(_ghost_mesh(h, T, {"density": rho, "center_mass": c0}))
+    J = _J(I, V, c0)
+    h.check("center-override-honoured", h.eq(mp.center_mass, c0))
+    h.check("inertia-about-override", h.eq(mp.inertia, [[rho * J[r][c] for c in range(3)] for r in range(3)]))
+
+
+def _sym_mp(h):
+    triangles = h.module(TRI)
+    c = h.reals("c", 3)
+    S = h.reals("S", (3, 3))
+    h.assume(h.eq(S, S.T))
+    m = h.real("m")
+    V = h.real("V")
+    rho = h.real("rho")
+    return triangles.MassProperties(density=rho, mass=m, volume=V, center_mass=c, inertia=S), c, S, m, V, rho
+
+
+@contract("C03", BASE + ".moment_inertia_frame", name="parallel-axis-and-rotation", timeout=60000)
+def trimesh_inertia_frame(h):
+    """inertia about the origin of frame T expressed in T's axes, from the mass properties
+    (mass, NOT volume; inertia about the centre of mass)"""
+    mp, c, S, m, V, rho = _sym_mp(h)
+    R = _rot(h, "R")
+    t = h.reals("t", 3)
+    np = h.np
+    M = (np.array(np.eye(4)) if h.mode == "sym" else np.eye(4)).copy()
+    M[:3, :3] = R
+    M[:3, 3] = t
+    out = h.method(BASE + ".moment_inertia_frame")(Ghost(mass_properties=mp), M)
+    a = [t[k] - c[k] for k in range(3)]  # frame origin relative to the centre of mass
+    aa = a[0] * a[0] + a[1] * a[1] + a[2] * a[2]
+    shifted = [[S[r, k] + m * ((aa if r == k else 0.0) - a[r] * a[k]) for k in range(3)] for r in range(3)]
+    sh = np.array(shifted) if h.mode == "sym" else np.asarray(shifted, dtype=float)
+    want = R.T.dot(sh).dot(R) if h.mode == "sym" else R.T @ sh @ R
+    h.check("R^T.(I_com + m(|a|^2 E - a a^T)).R", h.eq(out, want))
+
+
+@contract("C03", BASE + ".volume", name="scalar-getters")
+def trimesh_getters(h):
+    mp, c, S, m, V, rho = _sym_mp(h)
+    g = Ghost(mass_properties=mp)
+    h.check("volume", h.eq(h.method(BASE + ".volume")(g), V))
+    h.check("mass", h.eq(h.method(BASE + ".mass")(g), m))
+    h.check("center_mass", h.eq(h.method(BASE + ".center_mass")(g), c))
+    h.check("moment_inertia", h.eq(h.method(BASE + ".moment_inertia")(g), S))
+    h.check("density", h.eq(h.method(BASE + ".density")(g), rho))
+
+
+@contract("C03", BASE + ".area", name="sum-of-triangle-areas")
+def trimesh_area(h):
+    N = h.length("N")
+    T = h.lreals("T", N, (3, 3))
+    cr = h.fn(TRI + ".cross")(T)
+    af = h.method(BASE + ".area_faces")(Ghost(triangles_cross=cr))
+
+    def row(i):
+        c = cr[i]
+        return [af[i] >= 0, h.eq(4.0 * af[i] * af[i], c[0] * c[0] + c[1] * c[1] + c[2] * c[2])]
+
+    h.check("area_faces=|cross|/2", h.forall(N, row))
+    tot = h.method(BASE + ".area")(Ghost(area_faces=af))
+    h.check("area=sum(area_faces)", h.eq(tot, af.sum()))
